@@ -148,33 +148,24 @@ Print Assumptions C15_stoch_max_len.
 
 Theorem C15_stoch_energy : forall T V maxP max_len bp ff a d e o,
   stoch_convert_row T V maxP max_len bp ff (a, d, e) = Ok o ->
-  ev_requested o = if ff then Qmin (maxP * cap_dur max_len d) e else e.
+  ev_requested o =
+  if ff then Qmin (maxP * inject_Z (ev_departure o - ev_arrival o) / Stoch_pph T) e else e.
 Proof. exact stoch_row_energy. Qed.
 Print Assumptions C15_stoch_energy.
 
-(* FINDING (open): on the stochastic path force_feasible caps by the sampled duration, not by
-   the discretised stay [arrival, departure) of the EV it returns.  Full statement
-     forall valid rows, requested <= max_battery_power * (departure - arrival) * T/60
-   is refuted; what holds is the bound with one extra period. *)
-Theorem C15_stoch_force_feasible_refuted :
-  exists T V maxP max_len bp a d e o,
-    0 < T /\ 0 < maxP /\ Stoch_invalid a d e = false /\
-    stoch_convert_row T V maxP max_len bp true (a, d, e) = Ok o /\
-    maxP * inject_Z (ev_departure o - ev_arrival o) * (T / 60) < ev_requested o.
-Proof. exact stoch_force_feasible_refuted. Qed.
-Print Assumptions C15_stoch_force_feasible_refuted.
-
-Theorem C15_stoch_force_feasible_partial : forall T V maxP max_len bp a d e o,
-  0 < T -> 0 <= maxP -> 0 <= a -> 0 < d -> match max_len with Some L => 0 <= L | None => True end ->
+(* force_feasible on the stochastic path: the request never exceeds what max_battery_power can
+   deliver during the discretised stay [arrival, departure) of the EV that is returned, and is
+   the sampled energy whenever that is feasible.  (Was refuted before the fix ebdc3a4, which capped
+   by the sampled duration: sample (0.0 h, 0.9 h, 10 kWh), 60-min periods, 7 kW gave 6.3 kWh for a
+   stay of 0 periods; the witness is kept in corpus/C15/.) *)
+Theorem C15_stoch_force_feasible : forall T V maxP max_len bp a d e o,
+  0 < T ->
   stoch_convert_row T V maxP max_len bp true (a, d, e) = Ok o ->
-  ev_requested o <= maxP * cap_dur max_len d /\
-  ev_requested o <= maxP * (inject_Z (ev_departure o - ev_arrival o) + 1) * (T / 60).
-Proof.
-  intros T V maxP max_len bp a d e o HT HP Ha Hd HL H. split.
-  - exact (proj2 (stoch_row_energy_hours T V maxP max_len bp a d e o H)).
-  - exact (stoch_row_energy_periods T V maxP max_len bp a d e o HT HP Ha Hd HL H).
-Qed.
-Print Assumptions C15_stoch_force_feasible_partial.
+  ev_requested o <= e /\
+  ev_requested o <= maxP * inject_Z (ev_departure o - ev_arrival o) * (T / 60) /\
+  (e <= maxP * inject_Z (ev_departure o - ev_arrival o) * (T / 60) -> ev_requested o == e).
+Proof. exact stoch_row_energy_feasible. Qed.
+Print Assumptions C15_stoch_force_feasible.
 
 (* clip_samples projects into the bounds; with the default kind of bounds (arrival_min >= 0,
    duration_min > 0, energy_min > 0) no clipped sample is skipped as invalid *)
